@@ -312,8 +312,8 @@ where
         Ok(self.bulk)
     }
 
-    /// Private method; flushes held-back words if in inverted situation and adds one or two
-    /// additional words that identify the range regardless of what the compressed data may
+    /// Private method; flushes held-back words if in inverted situation and adds one or (rarely)
+    /// up to `State::BITS / Word::BITS` additional words that identify the range regardless of what the compressed data may
     /// be concatenated with (unless no symbols have been encoded yet, in which case this is
     /// a no-op).
     ///
@@ -356,7 +356,12 @@ where
             >> (State::BITS - Word::BITS))
             .as_();
         if upper_word == point_word {
-            self.bulk.write(Word::zero())?;
+            // Pad with zero words down to the least significant word of `State` so that the
+            // number a decoder reads in stays below `upper` no matter what follows (for
+            // `State::BITS == 2 * Word::BITS` this is a single zero word).
+            for _ in 1..State::BITS / Word::BITS {
+                self.bulk.write(Word::zero())?;
+            }
         }
 
         Ok(())
@@ -375,7 +380,11 @@ where
         let upper_word = (self.state.lower.wrapping_add(&self.state.range.get())
             >> (State::BITS - Word::BITS))
             .as_();
-        let mut count = if upper_word == point_word { 2 } else { 1 };
+        let mut count = if upper_word == point_word {
+            State::BITS / Word::BITS
+        } else {
+            1
+        };
 
         if let EncoderSituation::Inverted(num_inverted, _) = self.situation {
             count += num_inverted.get();
@@ -385,7 +394,8 @@ where
 
     /// Returns the number of compressed words on the ans.
     ///
-    /// This includes a constant overhead of between one and two words unless the
+    /// This includes a constant overhead of between one and two words (up to
+    /// `State::BITS / Word::BITS` words if `State` is wider than two `Word`s) unless the
     /// coder is completely empty.
     ///
     /// This method returns the length of the slice, the `Vec<Word>`, or the iterator
